@@ -133,7 +133,7 @@ class Runner:
         env = dict(os.environ)
         env["C12_CALL_TIMEOUT"] = str(self.timeout)
         pr = subprocess.run([self.exe, "replay", p] + (["-v"] if verbose else []), stdout=subprocess.PIPE, stderr=subprocess.PIPE,
-                            env=env, timeout=600)
+                            env=env, timeout=3000)
         lines = [l for l in pr.stdout.decode("utf-8", "replace").split("\n") if l]
         rc, verdicts = verif.run_driver_lines("api-seq", lines, driver_exe="drv_c12")
         os.remove(p)
@@ -329,10 +329,12 @@ def run(ctx):
     if missing:
         ctx.violation("entry points called by the harness are not in the generated table: %s" % missing[:8],
                       {"kind": "tie-broken", "missing": missing}, nofail=True)
-    n = 640 if quick else 40000
+    n = 640 if quick else 12000
+    if os.environ.get("C12_N"):                      # test aid
+        n = int(os.environ["C12_N"])
     shards = min(verif.NPROC, 16)
     env = {"C12_CALL_TIMEOUT": str(call_timeout)}
-    r = verif.run_stream(exe, "api-seq", ctx.seed, n, ctx.work, shards=shards, driver_exe="drv_c12", env=env, timeout=900 if quick else 6000)
+    r = verif.run_stream(exe, "api-seq", ctx.seed, n, ctx.work, shards=shards, driver_exe="drv_c12", env=env, timeout=3000 if quick else 30000)
     covered = set()
     for k in range(shards):
         p = os.path.join(ctx.work, "api-seq.%d.fns" % k)
@@ -346,6 +348,7 @@ def run(ctx):
                                                     "distribution": dist}
     ctx.cov["samples"] += [{"case": s["case"][:300], "impl": s["impl"], "model": s["model"]} for s in r.get("samples", [])[:2]]
     found_for = set()
+    seen = {}
     if r["error"]:
         ctx.violation("correspondence stream api-seq could not run: %s" % r["error"][:500],
                       {"kind": "tie-broken", "correspondence": "api-seq", "detail": r["error"]}, nofail=True)
@@ -353,7 +356,6 @@ def run(ctx):
         if len(covered) < 120:
             ctx.violation("the api-seq stream called only %d distinct entry points (< 120)" % len(covered),
                           {"kind": "tie-broken", "correspondence": "api-seq", "covered": sorted(covered)}, nofail=True)
-        seen = {}
         # every disagreement line (the first 50 are kept by run_stream; re-read the files for the rest)
         dis = []
         for k in range(shards):
@@ -379,18 +381,17 @@ def run(ctx):
         lf = getattr(ctx, "lean_failure", None) or {}
         named = sorted({f for fs in broken.values() for f in fs})
         unresolved = []
-        seen2 = {}
         for fn in named[:12]:
             hit = False
             if fn in harness_fns:
                 env2 = dict(env)
                 env2["C12_FOCUS"] = fn
                 wk = os.path.join(ctx.work, "focus-" + fn)
-                r2 = verif.run_stream(exe, "api-seq", ctx.seed + 17, 240, wk, shards=min(verif.NPROC, 8), driver_exe="drv_c12", env=env2, timeout=600)
+                r2 = verif.run_stream(exe, "api-seq", ctx.seed + 17, 240, wk, shards=min(verif.NPROC, 8), driver_exe="drv_c12", env=env2, timeout=3000)
                 for idx, case, exp, got in r2["disagreements"]:
                     pv = parse_verdict(got)
                     if pv and pv[1] == fn and not is_tie(signature(pv[1], pv[2])):
-                        report_failure(ctx, runner, case, got, seen2, "focused search after broken table theorem (%s)" % fn)
+                        report_failure(ctx, runner, case, got, seen, "focused search after broken table theorem (%s)" % fn)
                         hit = True
                         break
             if not hit and fn not in found_for:
